@@ -173,7 +173,8 @@ Definition live_ok (c : ctx) (p : nat * bytes) : Prop :=
 Definition Inv (L : list (nat * bytes)) (c : ctx) : Prop :=
   Forall (slot_ok (length (bufLC c))) (vars c) /\
   NoDup (map s_key (vars c)) /\
-  Forall (live_ok c) L.
+  Forall (live_ok c) L /\
+  0 <= brkD c.
 
 (* equality of everything [abs] and [Inv] look at *)
 Definition ceq (c1 c : ctx) : Prop :=
@@ -194,7 +195,7 @@ Proof. unfold ceq, abs. intros (A1&A2&A3&A4&A5&A6&A7). rewrite A1, A2, A3, A4, A
 
 Lemma ceq_Inv L c1 c : ceq c1 c -> Inv L c -> Inv L c1.
 Proof.
-  unfold ceq, Inv, live_ok. intros (A1&A2&A3&A4&A5&A6&A7) H. rewrite A1, A2. exact H.
+  unfold ceq, Inv, live_ok. intros (A1&A2&A3&A4&A5&A6&A7) H. rewrite A1, A2, A7. exact H.
 Qed.
 
 Lemma cell_free_ins_get v path : cell_free v -> cell_free (ins_get v path).
@@ -331,17 +332,17 @@ Lemma Inv_put_slot L k f fresh c :
   (forall p, In p L -> s_val fresh = VCell (fst p) -> snd p = k) ->
   Inv L c -> Inv L (put_slot k f fresh c).
 Proof.
-  intros Hk Hf Hok Hfok Hv Hlive (I1 & I2 & I3). unfold put_slot.
+  intros Hk Hf Hok Hfok Hv Hlive (I1 & I2 & I3 & I4). unfold put_slot.
   destruct (upd_slot k f (vars c)) as [l'|] eqn:U.
   - destruct (upd_slot_spec k f _ _ U Hk) as [M In']. unfold Inv. cbn [vars set_vars bufLC].
-    split; [|split].
+    split; [|split; [|split; [|exact I4]]].
     + apply Forall_forall. intros s' Hs'. destruct (In' s' Hs') as [H|(s0&_&_&->)]; [|apply Hok].
       rewrite Forall_forall in I1. apply I1, H.
     + rewrite M. exact I2.
     + rewrite Forall_forall in *. intros p Hp. destruct (I3 p Hp) as [P1 P2]. split; [exact P1|].
       cbn [vars set_vars]. intros s' Hs' Hc. destruct (In' s' Hs') as [H|(s0&H0&K0&->)]; [apply P2; assumption|].
       rewrite Hk, K0. symmetry. apply Hlive; [exact Hp|]. rewrite <- Hv with (s := s0). exact Hc.
-  - unfold Inv. cbn [vars set_vars bufLC]. split; [|split].
+  - unfold Inv. cbn [vars set_vars bufLC]. split; [|split; [|split; [|exact I4]]].
     + apply Forall_app. split; [exact I1|constructor; [exact Hfok|constructor]].
     + rewrite map_app. cbn [map]. rewrite Hf.
       pose proof (upd_slot_none k f _ U) as N.
@@ -391,7 +392,7 @@ Qed.
 Definition slots_ok (c : ctx) : Prop := Forall (slot_ok (length (bufLC c))) (vars c).
 
 Lemma Inv_slots L c : Inv L c -> slots_ok c.
-Proof. intros (H&_&_). exact H. Qed.
+Proof. intros (H&_&_&_). exact H. Qed.
 
 Lemma ceq_slots c1 c : ceq c1 c -> slots_ok c -> slots_ok c1.
 Proof. unfold ceq, slots_ok. intros (A1&A2&_) H. rewrite A1, A2. exact H. Qed.
@@ -453,18 +454,17 @@ Definition sig_rel (s : sig) (eo : option err) : Prop :=
 Definition sig_dom (s : sig) : Prop :=
   match s with SNA => False | SErr x => is_ctl x = false | _ => True end.
 
-(* what is claimed about the final context: on an error outcome the stores are not compared
-   (the interpreter restores the pending break depth of an enclosing loop on its way out, the
-   reference semantics just stops) *)
+(* what is claimed about the final context: its abstraction is the reference store, and the
+   invariant holds again *)
 Definition post (L : list (nat * bytes)) (s : sig) (c' : ctx) (e' : env) : Prop :=
-  match s with SErr _ => True | _ => abs c' = e' /\ Inv L c' end.
+  abs c' = e' /\ Inv L c'.
 
 Lemma post_intro L s c' e' : abs c' = e' -> Inv L c' -> post L s c' e'.
-Proof. intros A I'. destruct s; try exact I; split; assumption. Qed.
+Proof. intros A I'. split; assumption. Qed.
 
 Ltac splits := repeat match goal with
                       | |- _ /\ _ => split
-                      | |- post _ _ _ _ => first [assumption | progress cbn [post]]
+                      | |- post _ _ _ _ => first [assumption | progress unfold post]
                       end.
 
 (* ------------------------------------------------------------------ induction over ast *)
